@@ -5,7 +5,7 @@
 From Coq Require Import List NArith Arith Lia Bool Permutation.
 From Coq Require Import ZifyN ZifyNat ZifyBool.
 Import ListNotations.
-Require Import V.base.Bytes V.gen.Hagrid V.model.Transcript V.proofs.Transcript_proofs V.model.Session.
+Require Import V.base.Bytes V.gen.Hagrid V.gen.SessionConsts V.model.Transcript V.proofs.Transcript_proofs V.model.Session.
 Local Open Scope N_scope.
 
 (* ====================================================================== *)
@@ -273,8 +273,15 @@ Proof. unfold seed_input. rewrite (N.min_comm b a), (N.max_comm b a). reflexivit
 (* hashes as injective functions (the idealisation, visible as hypotheses) *)
 (* ====================================================================== *)
 
+(* the two cSHAKE customisation strings (top-level seeds / sub-context seeds) differ;
+   re-checked against the regenerated constants *)
 Lemma labels_distinct : seedDomainSeparatorLabel <> subContextDomainSeparatorLabel.
-Proof. intros H. apply (f_equal (@length N)) in H. vm_compute in H. discriminate. Qed.
+Proof.
+  intros H.
+  assert (E : bytes_eqb seedDomainSeparatorLabel subContextDomainSeparatorLabel = false)
+    by (vm_compute; reflexivity).
+  rewrite H in E. rewrite bytes_eqb_refl in E. discriminate.
+Qed.
 
 Section WithHashes.
   Variable com : bytes -> bytes -> bytes.
